@@ -9,17 +9,24 @@ import Mathlib.Data.List.Basic
 /-!
 # C10 — peer failure or removal re-homes under-replicated pins once and drops none
 
-Property theorems.
+Property theorems (helper lemmas: `Lemmas/C10.lean`; the engine there: every per-pin call of the three sweeps is
+*local* to its cid, so a round decomposes cid by cid).
 
-* `closest_at_most_one`, `closest_exists` — among members with pairwise distinct hashes that
-  trust each other, exactly one is closest to any CID (no bound on the number of members);
-  this is what makes "by exactly one surviving peer" and "unpinned by exactly one peer" hold.
-* `repin_preserves_options`, `repin_never_removes` — re-pinning away from a failed peer keeps
-  every option of the pin and never erases an entry; `repin_allocation` — when it stores new
-  allocations they are the ones chosen, which the C03 relation constrains.
-* `onAlert_follower_noop`, `onAlert_disabled_noop`, `vacate_disabled_noop`, `stateSync_follower_noop`.
-* `onAlert_keys`, `vacate_keys` — over a whole alert / removal handling no CID leaves the pinset.
-* `stateSync_only_expired` — the expiry sweep only unpins expired pins.
+* `closest_at_most_one`, `closest_exists` — among members with pairwise distinct hashes that trust each other,
+  exactly one is closest to any CID (no bound on the number of members).
+* **Round composition** (`AgreedRound`: the members share the view of the peerset, any schedule):
+  `round_cid`, `round_by_decider` (per cid the round is the decider acting alone on the pre-state),
+  `round_at_most_one_repin`, `round_exactly_one_repin`, `round_result_allocs`, `round_untouched_not_held`,
+  `round_untouched_min_met`, `round_never_removes`, `round_idempotent`, `round_rehomed_once`,
+  `snap_same_state` (snapshot discipline, commits in any order = serial discipline),
+  `round_schedule_irrelevant`, `round_state_is_commit`.
+* **Without agreement** (outside the property's quantifier): `disagreement_two_repinners`, `disagreement_nobody`.
+* **Peer removal**: `vacate_rehomes_all_or_reports`, `vacate_untouched_not_held`, `vacate_never_removes`,
+  `vacate_then_remove_order`, `peerRemove_not_aborted`.
+* **Expiry**: `expiry_once` (all orders, both disciplines), `expired_iff_clock`, `expiry_boundary` (all clock values).
+* per-member facts independent of the others: `onAlert_log_closest`, `alert_at_most_one_repinner`,
+  `repin_preserves_options`, `repin_other_untouched`, `stateSync_only_expired`, the four no-op theorems,
+  `handler_memoryless`.
 -/
 namespace CV.C10
 open CV
@@ -404,4 +411,736 @@ theorem round_logs_only_pins (f : Nat) (a : Actor) (pre : PinMap) (hw : pre.wf =
         have : q.cid = entryCid e := by rw [hmem]; rfl
         rw [this, hg]; rfl
     · cases hmem
+
+theorem setupFactors_noop (cfg : C04.Cfg) (p : Pin) (h1 : p.opts.rmin ≠ 0) (h2 : p.opts.rmax ≠ 0) (ha : p.allocs = []) :
+    C04.setupFactors cfg p = p := by
+  unfold C04.setupFactors C04.effRmin C04.effRmax
+  have e1 : (p.opts.rmin == 0) = false := by simpa using h1
+  have e2 : (p.opts.rmax == 0) = false := by simpa using h2
+  simp only [e1, e2, Bool.false_eq_true, if_false]
+  obtain ⟨cid, type, opts, depth, allocs, ref⟩ := p
+  simp only at ha
+  subst ha
+  split_ifs <;> rfl
+
+def repinInput (pc : PeerCfg) (f : Nat) (x : Pin) : C03.Input :=
+  { desc := pc.base.desc, rmin := x.opts.rmin, rmax := x.opts.rmax, peers := pc.base.peers,
+    current := x.allocs, blacklist := [f], priority := x.opts.ualloc }
+
+structure Repinnable (x : Pin) : Prop where
+  rmin : x.opts.rmin ≠ 0
+  rmax : x.opts.rmax ≠ 0
+  valid : C03.factorsValid x.opts.rmin x.opts.rmax = true
+  live : x.opts.expire.beforeNow = false
+  data : x.type = .dataT
+  noref : x.ref = none
+  stored : x.stored = x
+
+theorem repinOut_data' (pc : PeerCfg) (f : Nat) (ch : Chosen) (st : PinMap) (x : Pin)
+    (hget : st.get x.cid = some x) (hfol : pc.follower = false) (hr : Repinnable x) :
+    repinOut pc f ch st x =
+      (match C03.allocate (repinInput pc f x) with
+       | .ok _ => { C04.logPin st { x with allocs := ch x.cid } with alloc := some (repinInput pc f x) }
+       | _ => { C04.err st with alloc := some (repinInput pc f x) }) := by
+  unfold repinOut C04.pinOp
+  have hcf : pc.cfg.follower = false := hfol
+  simp only [hcf, Bool.false_eq_true, if_false, List.isEmpty_cons]
+  unfold C04.pinBody
+  have hs : C04.setupFactors pc.cfg ({ x with allocs := [] } : Pin) = { x with allocs := [] } :=
+    setupFactors_noop _ _ hr.rmin hr.rmax rfl
+  have e1 : C04.effRmin pc.cfg ({ x with allocs := [] } : Pin) = x.opts.rmin := by
+    unfold C04.effRmin; simp [hr.rmin]
+  have e2 : C04.effRmax pc.cfg ({ x with allocs := [] } : Pin) = x.opts.rmax := by
+    unfold C04.effRmax; simp [hr.rmax]
+  have hk : C04.keepOrNew (some x) ({ x with allocs := [] } : Pin) [f] = { x with allocs := [] } := by
+    unfold C04.keepOrNew; simp
+  have hty : C04.typeOk (some x) ({ x with allocs := [] } : Pin) = true := by
+    unfold C04.typeOk C04.checkPinType; cases hmo : x.opts.mode <;> simp [hr.data, hr.noref, hmo]
+  have hm : (x.type == PinType.metaT) = false := by rw [hr.data]; rfl
+  have hin : C04.allocIn pc.cfg (some x) ({ x with allocs := [] } : Pin) [f] = repinInput pc f x := rfl
+  simp only [hs, e1, e2, hr.valid, hget, hr.live, hk, hty, hm, hin, Bool.not_true, Bool.false_eq_true, if_false,
+    List.isEmpty_nil, if_true]
+  generalize C03.allocate (repinInput pc f x) = o
+  cases o <;> rfl
+
+theorem repinOut_data (pc : PeerCfg) (f : Nat) (ch : Chosen) (st : PinMap) (x : Pin)
+    (hget : st.get x.cid = some x) (hfol : pc.follower = false) (hr : Repinnable x) :
+    (repinOut pc f ch st x).log =
+      (match C03.allocate (repinInput pc f x) with
+       | .ok _ => [.logPin { x with allocs := ch x.cid }]
+       | _ => []) := by
+  rw [repinOut_data' pc f ch st x hget hfol hr]
+  generalize C03.allocate (repinInput pc f x) = o
+  cases o <;> rfl
+
+/-! C03 arms -/
+theorem keep_arm (i : C03.Input) (hpos : 0 < i.rmin) (hle : i.rmin ≤ i.rmax)
+    (h1 : i.rmin ≤ ((C03.curIds i).length : Int)) (h2 : ((C03.curIds i).length : Int) ≤ i.rmax) :
+    C03.allocate i = .ok i.current ∧ ∀ l, C03.allowed i (.ok l) = true → l = i.current := by
+  have c1 : ¬ (i.rmin + i.rmax == 0) = true := by simp only [beq_iff_eq]; omega
+  have c2 : ¬ (decide (i.rmin < 0) && decide (i.rmax < 0)) = true := by
+    simp only [Bool.and_eq_true, decide_eq_true_eq]; omega
+  have c3 : ¬ (i.rmax - ((C03.curIds i).length : Int) < 0) := by omega
+  have c4 : i.rmin - ((C03.curIds i).length : Int) ≤ 0 := by omega
+  constructor
+  · unfold C03.allocate
+    simp only [c1, c2, c3, c4, Bool.false_eq_true, if_false, if_true]
+  · intro l hl
+    unfold C03.allowed at hl
+    simp only [c1, c2, c3, c4, Bool.false_eq_true, if_false, if_true, beq_iff_eq, C03.Output.ok.injEq] at hl
+    exact hl
+
+theorem alloc_arm_good (i : C03.Input) (hw : C03.wf i = true) (hpos : 0 < i.rmin) (hle : i.rmin ≤ i.rmax)
+    (hunder : ((C03.curIds i).length : Int) < i.rmin) (l : List Nat) (hl : C03.allowed i (.ok l) = true) :
+    ∀ p ∈ l, C03.good i p = true := by
+  have c1 : ¬ (i.rmin + i.rmax == 0) = true := by simp only [beq_iff_eq]; omega
+  have c2 : ¬ (decide (i.rmin < 0) && decide (i.rmax < 0)) = true := by
+    simp only [Bool.and_eq_true, decide_eq_true_eq]; omega
+  have c3 : ¬ (i.rmax - ((C03.curIds i).length : Int) < 0) := by omega
+  have c4 : ¬ (i.rmin - ((C03.curIds i).length : Int) ≤ 0) := by omega
+  unfold C03.allowed at hl
+  simp only [c1, c2, c3, c4, Bool.false_eq_true, if_false] at hl
+  split_ifs at hl
+  · simp at hl
+  · simp at hl
+  · rw [C03.okWith_iff] at hl
+    obtain ⟨l', e, hok⟩ := hl
+    cases e
+    rw [C03.okAlloc_iff] at hok
+    obtain ⟨hhead, _, ha, hb⟩ := hok
+    obtain ⟨a1, _, _⟩ := C03.isTopK_spec ha
+    obtain ⟨b1, _, _⟩ := C03.isTopK_spec hb
+    intro p hp
+    rw [← List.take_append_drop (C03.curIds i).length l, List.mem_append] at hp
+    rcases hp with hp | hp
+    · exact ((C03.mem_curIds hw).1 (hhead.mem_iff.1 hp)).2
+    · rw [← List.take_append_drop (min (min (i.rmax - ((C03.curIds i).length : Int)).toNat
+          ((C03.numerics (C03.priM i)).length + (C03.numerics (C03.candM i)).length)) (C03.numerics (C03.priM i)).length)
+          (List.drop (C03.curIds i).length l), List.mem_append] at hp
+      rcases hp with hp | hp
+      · obtain ⟨v, hv⟩ := a1 p hp
+        obtain ⟨hs, hb', _, _⟩ := (C03.priNum_spec hw).1 (C03.lookupVal_some hv)
+        rw [C03.good_iff]; exact ⟨by rw [hs]; rfl, hb'⟩
+      · obtain ⟨v, hv⟩ := b1 p hp
+        obtain ⟨hs, hb', _, _⟩ := (C03.candNum_spec hw).1 (C03.lookupVal_some hv)
+        rw [C03.good_iff]; exact ⟨by rw [hs]; rfl, hb'⟩
+
+theorem stored_with_allocs (p : Pin) (al : List Nat) (h : p.stored = p) :
+    ({ p with allocs := al } : Pin).stored = { p with allocs := al } := by
+  have : ({ p with allocs := al } : Pin).stored = { p.stored with allocs := al } := rfl
+  rw [this, h]
+
+/-- the entry a member leaves for `c` is decided by what it logged for `c` -/
+theorem alertAct_get (f : Nat) (a : Actor) (pre : PinMap) (hw : pre.wf = true) (c : Nat) :
+    (alertAct f a pre).st.get c = (forCid c (alertAct f a pre).log).foldl effect (pre.get c) := by
+  rw [(onAlert_spec a f pre hw c).1, get_commitAll hw]
+
+theorem alertCondFull_true {w : World} {f : Nat} {d : Actor} (hv : d.w = w) {x : Pin}
+    (hheld : x.allocs.contains f = true) (hc : isClosest w d.pc.self (some f) x.cid = true)
+    (hact : canAct d.pc = true) : alertCondFull f d x = true := by
+  unfold canAct at hact
+  unfold alertCondFull alertCond
+  rw [hv, hheld, hc]
+  simp only [Bool.and_eq_true, Bool.not_eq_true'] at hact
+  simp [hact.1, hact.2]
+
+/-- **Exactly one.** A pin held by the failed peer, which can be re-pinned (stored data pin with valid
+    factors, not expired, allocation possible in the decider's view of the metrics), whose closest member can
+    act: in every schedule and under both commit disciplines exactly one LogPin is issued for its cid over the
+    whole round, by that closest member, and the round leaves the pin with exactly its allocations changed. -/
+theorem round_exactly_one_repin (w : World) (f : Nat) (sched : List Actor) (pre : PinMap)
+    (hA : AgreedRound w (some f) sched) (hw : pre.wf = true) (x : Pin) (hx : pre.get x.cid = some x)
+    (hheld : x.allocs.contains f = true) (d : Actor) (hd : d ∈ sched)
+    (hc : isClosest w d.pc.self (some f) x.cid = true) (hact : canAct d.pc = true) (hr : Repinnable x)
+    (l0 : List Nat) (hal : C03.allocate (repinInput d.pc f x) = .ok l0) :
+    roundFor x.cid (roundSeq f sched pre).2 = [(d.pc.self, .logPin { x with allocs := d.ch x.cid })] ∧
+    (roundSeq f sched pre).1.get x.cid = some { x with allocs := d.ch x.cid } ∧
+    roundFor x.cid (snapLogs f sched pre) = [(d.pc.self, .logPin { x with allocs := d.ch x.cid })] := by
+  obtain ⟨r1, r2, r3⟩ := round_by_decider w f sched pre hA hw x.cid d hd hc
+  have hfol : d.pc.follower = false := by
+    unfold canAct at hact; simp only [Bool.and_eq_true, Bool.not_eq_true'] at hact; exact hact.1
+  have hlog : forCid x.cid (alertAct f d pre).log = [.logPin { x with allocs := d.ch x.cid }] := by
+    rw [(onAlert_spec d f pre hw x.cid).2, hx]
+    simp only
+    rw [if_pos (alertCondFull_true (hA.view d hd) hheld hc hact), repinOut_data d.pc f d.ch pre x hx hfol hr, hal]
+  have hst : (alertAct f d pre).st.get x.cid = some { x with allocs := d.ch x.cid } := by
+    rw [alertAct_get f d pre hw, hlog]
+    show some ({ x with allocs := d.ch x.cid } : Pin).stored = _
+    rw [stored_with_allocs x _ hr.stored]
+  refine ⟨?_, ?_, ?_⟩
+  · rw [r1, hlog]; rfl
+  · rw [r2, hst]
+  · rw [r3, r1, hlog]; rfl
+
+/-- **Where it goes.** If moreover the pin is under-replicated in the decider's view (fewer healthy holders
+    other than the failed peer than its minimum) and the decider's allocator made a choice the C03 relation
+    admits, the pin the round leaves has every option of the old one, is allocated to healthy peers only, never to
+    the failed one, and satisfies every clause of C03. -/
+theorem round_result_allocs (w : World) (f : Nat) (sched : List Actor) (pre : PinMap)
+    (hA : AgreedRound w (some f) sched) (hw : pre.wf = true) (x : Pin) (hx : pre.get x.cid = some x)
+    (hheld : x.allocs.contains f = true) (d : Actor) (hd : d ∈ sched)
+    (hc : isClosest w d.pc.self (some f) x.cid = true) (hact : canAct d.pc = true) (hr : Repinnable x)
+    (l0 : List Nat) (hal : C03.allocate (repinInput d.pc f x) = .ok l0)
+    (hwf : C03.wf (repinInput d.pc f x) = true) (hpos : 0 < x.opts.rmin) (hle : x.opts.rmin ≤ x.opts.rmax)
+    (hunder : ((C03.curIds (repinInput d.pc f x)).length : Int) < x.opts.rmin)
+    (hadm : C03.allowed (repinInput d.pc f x) (.ok (d.ch x.cid)) = true) :
+    ∃ q, (roundSeq f sched pre).1.get x.cid = some q ∧ q = { x with allocs := q.allocs } ∧
+      (∀ p ∈ q.allocs, p ≠ f ∧ (C03.stateOf (repinInput d.pc f x) p).healthy = true) ∧
+      C03.holds (repinInput d.pc f x) (.ok q.allocs) = true := by
+  obtain ⟨_, r2, _⟩ := round_exactly_one_repin w f sched pre hA hw x hx hheld d hd hc hact hr l0 hal
+  refine ⟨_, r2, rfl, ?_, C03.allowed_holds _ _ hwf hadm⟩
+  intro p hp
+  have hg := alloc_arm_good (repinInput d.pc f x) hwf hpos hle hunder _ hadm p hp
+  rw [C03.good_iff] at hg
+  refine ⟨?_, hg.1⟩
+  intro e; subst e
+  exact hg.2 (by simp [repinInput])
+
+/-- **Untouched (1).** A pin the failed peer does not hold: nothing is logged for it by anybody and its entry
+    stays, in every schedule and under both disciplines. -/
+theorem round_untouched_not_held (w : World) (f : Nat) (sched : List Actor) (pre : PinMap)
+    (hA : AgreedRound w (some f) sched) (hw : pre.wf = true) (x : Pin) (hx : pre.get x.cid = some x)
+    (hnot : x.allocs.contains f = false) :
+    roundFor x.cid (roundSeq f sched pre).2 = [] ∧ (roundSeq f sched pre).1.get x.cid = some x ∧
+    roundFor x.cid (snapLogs f sched pre) = [] := by
+  rcases round_cid w f sched pre hA hw x.cid with ⟨d, hd, hc, r1, r2, r3⟩ | ⟨_, r1, r2, r3⟩
+  · have hlog : forCid x.cid (alertAct f d pre).log = [] := by
+      rw [(onAlert_spec d f pre hw x.cid).2, hx]
+      simp only
+      have : alertCondFull f d x = false := by unfold alertCondFull alertCond; rw [hnot]; simp
+      rw [this]; rfl
+    refine ⟨by rw [r1, hlog]; rfl, ?_, by rw [r3, r1, hlog]; rfl⟩
+    rw [r2, alertAct_get f d pre hw, hlog, hx]; rfl
+  · exact ⟨r1, by rw [r2, hx], r3⟩
+
+/-- **Untouched (2).** A pin the failed peer holds but which every member sees still meeting its minimum (and
+    not above its maximum: K08) with the remaining healthy holders: its entry stays as it is. (The closest
+    member does issue one LogPin — of the identical pin: `allocate` returns the current allocations.) -/
+theorem round_untouched_min_met (w : World) (f : Nat) (sched : List Actor) (pre : PinMap)
+    (hA : AgreedRound w (some f) sched) (hw : pre.wf = true) (x : Pin) (hx : pre.get x.cid = some x)
+    (hr : Repinnable x) (hpos : 0 < x.opts.rmin) (hle : x.opts.rmin ≤ x.opts.rmax)
+    (hmet : ∀ a ∈ sched, x.opts.rmin ≤ ((C03.curIds (repinInput a.pc f x)).length : Int) ∧
+      ((C03.curIds (repinInput a.pc f x)).length : Int) ≤ x.opts.rmax ∧
+      C03.allowed (repinInput a.pc f x) (.ok (a.ch x.cid)) = true) :
+    (roundSeq f sched pre).1.get x.cid = some x := by
+  rcases round_cid w f sched pre hA hw x.cid with ⟨d, hd, hc, _, r2, _⟩ | ⟨_, _, r2, _⟩
+  · rw [r2, alertAct_get f d pre hw, (onAlert_spec d f pre hw x.cid).2, hx]
+    simp only
+    by_cases hcond : alertCondFull f d x = true
+    · rw [if_pos hcond]
+      have hfol : d.pc.follower = false := by
+        unfold alertCondFull at hcond
+        simp only [Bool.and_eq_true, Bool.not_eq_true', Bool.or_eq_false_iff] at hcond
+        exact hcond.1.1
+      obtain ⟨m1, m2, m3⟩ := hmet d hd
+      obtain ⟨k1, k2⟩ := keep_arm (repinInput d.pc f x) hpos hle m1 m2
+      rw [repinOut_data d.pc f d.ch pre x hx hfol hr, k1]
+      have : d.ch x.cid = x.allocs := k2 _ m3
+      rw [this]
+      show some ({ x with allocs := x.allocs } : Pin).stored = some x
+      rw [stored_with_allocs x _ hr.stored]
+    · rw [if_neg hcond]; rfl
+  · rw [r2, hx]
+
+/-- **Idempotent.** Once the failed peer no longer holds a pin (which is what a re-home achieves:
+    `round_result_allocs`), any further round for the same peer — repeated alert, other order, other allocator
+    choices, other flags — logs nothing for it and leaves it as it is. -/
+theorem round_idempotent (w : World) (f : Nat) (sched sched2 : List Actor) (pre : PinMap)
+    (hA2 : AgreedRound w (some f) sched2) (hw : pre.wf = true) (q : Pin)
+    (hq : (roundSeq f sched pre).1.get q.cid = some q) (hgone : q.allocs.contains f = false) :
+    roundFor q.cid (roundSeq f sched2 (roundSeq f sched pre).1).2 = [] ∧
+    (roundSeq f sched2 (roundSeq f sched pre).1).1.get q.cid = some q :=
+  let h := round_untouched_not_held w f sched2 _ hA2 (round_never_removes f sched pre hw q.cid).1 q hq hgone
+  ⟨h.1, h.2.1⟩
+
+/-- the re-homed pin of `round_exactly_one_repin` / `round_result_allocs` is re-homed once: a second round logs nothing for it -/
+theorem round_rehomed_once (w : World) (f : Nat) (sched sched2 : List Actor) (pre : PinMap)
+    (hA : AgreedRound w (some f) sched) (hA2 : AgreedRound w (some f) sched2) (hw : pre.wf = true)
+    (x : Pin) (hx : pre.get x.cid = some x)
+    (hheld : x.allocs.contains f = true) (d : Actor) (hd : d ∈ sched)
+    (hc : isClosest w d.pc.self (some f) x.cid = true) (hact : canAct d.pc = true) (hr : Repinnable x)
+    (l0 : List Nat) (hal : C03.allocate (repinInput d.pc f x) = .ok l0)
+    (hwf : C03.wf (repinInput d.pc f x) = true) (hpos : 0 < x.opts.rmin) (hle : x.opts.rmin ≤ x.opts.rmax)
+    (hunder : ((C03.curIds (repinInput d.pc f x)).length : Int) < x.opts.rmin)
+    (hadm : C03.allowed (repinInput d.pc f x) (.ok (d.ch x.cid)) = true) :
+    roundFor x.cid (roundSeq f sched2 (roundSeq f sched pre).1).2 = [] := by
+  obtain ⟨q, hq, hqe, hgood, _⟩ := round_result_allocs w f sched pre hA hw x hx hheld d hd hc hact hr l0 hal hwf hpos hle hunder hadm
+  have hcid : q.cid = x.cid := by rw [hqe]
+  have hgone : q.allocs.contains f = false := by
+    rw [Bool.eq_false_iff]; intro hcon
+    have := (hgood f (by simpa using hcon)).1
+    exact this rfl
+  have := (round_idempotent w f sched sched2 pre hA2 hw q (by rw [hcid]; exact hq) hgone).1
+  rw [hcid] at this; exact this
+
+/-! ### members that do NOT agree on the peerset (outside the property's quantifier) -/
+
+private def dBase : C04.Cfg :=
+  { follower := false, defMin := 1, defMax := 1, desc := false,
+    peers := [(0, .valid 1), (1, .valid 1), (3, .valid 1)], paths := [], blocks := [] }
+private def dPin : Pin :=
+  { cid := 7, type := .dataT, depth := -1, allocs := [2], ref := none,
+    opts := { rmin := 1, rmax := 1, name := 0, mode := .recursive, shard := 0, expire := .zero,
+              metadata := [], update := none, origins := [], ualloc := [] } }
+private def wA : World := { members := [(0, 1), (1, 2), (2, 100)], cidHash := [(7, 0)], untrusted := [] }
+private def wB : World := { members := [(1, 2), (2, 100), (3, 3)], cidHash := [(7, 0)], untrusted := [] }
+private def actA : Actor :=
+  { w := wA, pc := { self := 0, follower := false, disableRepin := false, base := dBase }, ch := fun _ => [0] }
+private def actB : Actor :=
+  { w := wB, pc := { self := 1, follower := false, disableRepin := false, base := dBase }, ch := fun _ => [1] }
+
+/-- **Without agreement "exactly one" fails.** Two members whose views of the peerset differ (member 0 does not
+    yet see member 3; member 1 no longer sees member 0) both consider themselves closest to cid 7: handling the
+    alert against the same pre-state (snapshot discipline — with the CRDT consensus every member reads its own
+    replica) each logs a pin, with different allocations, and the pinset that results depends on the order in
+    which the two commits arrive. -/
+theorem disagreement_two_repinners :
+    (fun w : World => w.peerHash 0) actA.w ≠ (fun w : World => w.peerHash 0) actB.w ∧
+    roundFor 7 (snapLogs 2 [actA, actB] [dPin]) =
+      [(0, .logPin { dPin with allocs := [0] }), (1, .logPin { dPin with allocs := [1] })] ∧
+    commitAll [dPin] [.logPin { dPin with allocs := [0] }, .logPin { dPin with allocs := [1] }] ≠
+    commitAll [dPin] [.logPin { dPin with allocs := [1] }, .logPin { dPin with allocs := [0] }] := by
+  decide
+
+private def wA' : World := { members := [(0, 5), (1, 2), (2, 100)], cidHash := [(7, 0)], untrusted := [] }
+private def wB' : World := { members := [(1, 2), (2, 100), (3, 1)], cidHash := [(7, 0)], untrusted := [] }
+private def actA' : Actor := { actA with w := wA', pc := { actA.pc with self := 0 } }
+private def actB' : Actor := { actB with w := wB' }
+
+/-- …and "at least one" fails too: member 0 sees member 1 closer, member 1 sees a member 3 closer that is not
+    there to act (it is not among the members the alert reaches): nobody re-homes the pin, which stays allocated
+    to the failed peer only, under either discipline. -/
+theorem disagreement_nobody :
+    roundFor 7 (roundSeq 2 [actA', actB'] [dPin]).2 = [] ∧ roundFor 7 (snapLogs 2 [actA', actB'] [dPin]) = [] ∧
+    (roundSeq 2 [actA', actB'] [dPin]).1 = [dPin] := by
+  decide
+
+/-! ### peer removal: `PeerRemove` = vacate, then the membership change -/
+
+/-- One member vacating a peer: the pinset it leaves is the commit of what it logged; for a cid it logged what
+    `repinFromPeer` logs for the entry the pre-state holds, if the peer holds the pin (no closest test). -/
+theorem vacate_spec (pc : PeerCfg) (f : Nat) (ch : Chosen) (pre : PinMap) (hw : pre.wf = true) (c : Nat) :
+    (vacate pc f ch pre).st = commitAll pre (vacate pc f ch pre).log ∧
+    forCid c (vacate pc f ch pre).log =
+      match pre.get c with
+      | some x => if !pc.disableRepin && x.allocs.contains f then (repinOut pc f ch pre x).log else []
+      | none => [] := by
+  unfold vacate
+  by_cases h : pc.disableRepin = true
+  · rw [if_pos h]
+    refine ⟨rfl, ?_⟩
+    cases pre.get c <;> simp [h, forCid]
+  · rw [if_neg h]
+    have h' : pc.disableRepin = false := by simpa using h
+    have hl := repinOut_local pc f ch
+    refine ⟨(sweepAll_spec hl _ pre hw).2.1, ?_⟩
+    rw [sweepAll_forCid hl _ pre hw c]
+    cases pre.get c <;> simp [h']
+
+/-- **Vacate re-homes every pin of the peer, or the re-pin reports an error and the pin is kept as it was.**
+    For every re-pinnable pin the removed peer holds: if an allocation exists (in this member's view of the
+    metrics) exactly one LogPin is committed and the entry afterwards is the old one with the chosen
+    allocations; otherwise `pin()` returns an error (which `repinFromPeer` drops after `allocate` has logged it),
+    nothing is logged for the cid and the entry is unchanged — the loop goes on with the next pin. -/
+theorem vacate_rehomes_all_or_reports (pc : PeerCfg) (f : Nat) (ch : Chosen) (pre : PinMap) (hw : pre.wf = true)
+    (x : Pin) (hx : pre.get x.cid = some x) (hheld : x.allocs.contains f = true)
+    (hact : canAct pc = true) (hr : Repinnable x) :
+    ((∃ l0, C03.allocate (repinInput pc f x) = .ok l0) →
+        forCid x.cid (vacate pc f ch pre).log = [.logPin { x with allocs := ch x.cid }] ∧
+        (vacate pc f ch pre).st.get x.cid = some { x with allocs := ch x.cid }) ∧
+    ((∀ l0, C03.allocate (repinInput pc f x) ≠ .ok l0) →
+        (repinOut pc f ch pre x).res = none ∧
+        forCid x.cid (vacate pc f ch pre).log = [] ∧ (vacate pc f ch pre).st.get x.cid = some x) := by
+  unfold canAct at hact
+  simp only [Bool.and_eq_true, Bool.not_eq_true'] at hact
+  obtain ⟨hfol, hdis⟩ := hact
+  obtain ⟨s1, s2⟩ := vacate_spec pc f ch pre hw x.cid
+  rw [hx] at s2
+  simp only [hdis, hheld, Bool.not_false, Bool.and_self, if_true] at s2
+  have hget : (vacate pc f ch pre).st.get x.cid = (forCid x.cid (vacate pc f ch pre).log).foldl effect (some x) := by
+    rw [s1, get_commitAll hw, hx]
+  constructor
+  · rintro ⟨l0, hal⟩
+    have hlog : forCid x.cid (vacate pc f ch pre).log = [.logPin { x with allocs := ch x.cid }] := by
+      rw [s2, repinOut_data pc f ch pre x hx hfol hr, hal]
+    refine ⟨hlog, ?_⟩
+    rw [hget, hlog]
+    show some ({ x with allocs := ch x.cid } : Pin).stored = _
+    rw [stored_with_allocs x _ hr.stored]
+  · intro hno
+    have hout := repinOut_data' pc f ch pre x hx hfol hr
+    have hlog : forCid x.cid (vacate pc f ch pre).log = [] := by
+      rw [s2, repinOut_data pc f ch pre x hx hfol hr]
+      cases hal : C03.allocate (repinInput pc f x) with
+      | ok l0 => exact absurd hal (hno l0)
+      | err => rfl
+      | panic => rfl
+    refine ⟨?_, hlog, by rw [hget, hlog]; rfl⟩
+    rw [hout]
+    cases hal : C03.allocate (repinInput pc f x) with
+    | ok l0 => exact absurd hal (hno l0)
+    | err => rfl
+    | panic => rfl
+
+/-- pins the removed peer does not hold are not touched by `PeerRemove` -/
+theorem vacate_untouched_not_held (pc : PeerCfg) (f : Nat) (ch : Chosen) (pre : PinMap) (hw : pre.wf = true)
+    (x : Pin) (hx : pre.get x.cid = some x) (hnot : x.allocs.contains f = false) :
+    forCid x.cid (vacate pc f ch pre).log = [] ∧ (vacate pc f ch pre).st.get x.cid = some x := by
+  obtain ⟨s1, s2⟩ := vacate_spec pc f ch pre hw x.cid
+  rw [hx] at s2
+  simp only [hnot, Bool.and_false, Bool.false_eq_true, if_false] at s2
+  refine ⟨s2, ?_⟩
+  rw [s1, get_commitAll hw, s2, hx]; rfl
+
+/-- **`PeerRemove` never removes a pin**: the key set of the pinset is preserved -/
+theorem vacate_never_removes (pc : PeerCfg) (f : Nat) (ch : Chosen) (rmOk : Bool) (members : List Nat) (pre : PinMap)
+    (hw : pre.wf = true) (c : Nat) :
+    ((peerRemove pc f ch rmOk members pre).st.get c).isSome = (pre.get c).isSome :=
+  vacate_keys pc f ch pre hw c
+
+/-- **Every re-home precedes the membership change**, which is attempted last whatever the re-pins did:
+    the trace is the committed LogPins in order, then `RmPeer`. -/
+theorem vacate_then_remove_order (pc : PeerCfg) (f : Nat) (ch : Chosen) (rmOk : Bool) (members : List Nat) (pre : PinMap) :
+    (peerRemove pc f ch rmOk members pre).trace =
+      (peerRemove pc f ch rmOk members pre).log.map RmEv.op ++ [.rmPeer f rmOk] ∧
+    ∀ (i j : Nat) (e : C04.LogEntry), (peerRemove pc f ch rmOk members pre).trace[i]? = some (RmEv.op e) →
+      (peerRemove pc f ch rmOk members pre).trace[j]? = some (RmEv.rmPeer f rmOk) → i < j := by
+  refine ⟨rfl, ?_⟩
+  intro i j e hi hj
+  unfold peerRemove at hi hj
+  simp only at hi hj
+  by_contra hlt
+  have hji : j ≤ i := Nat.le_of_not_lt hlt
+  have hjlen : j < ((vacate pc f ch pre).log.map RmEv.op).length := by
+    by_contra hge
+    have hge' : ((vacate pc f ch pre).log.map RmEv.op).length ≤ i := by omega
+    rw [List.getElem?_append_right hge'] at hi
+    cases hk : i - ((vacate pc f ch pre).log.map RmEv.op).length with
+    | zero => rw [hk] at hi; simp at hi
+    | succ n => rw [hk] at hi; simp at hi
+  rw [List.getElem?_append_left hjlen, List.getElem?_map] at hj
+  cases hg : (vacate pc f ch pre).log[j]? with
+  | none => rw [hg] at hj; simp at hj
+  | some e' => rw [hg] at hj; simp at hj
+
+/-- the removal is not aborted by a failed re-pin: what `PeerRemove` returns, and the peerset afterwards,
+    depend on `RmPeer` alone -/
+theorem peerRemove_not_aborted (pc : PeerCfg) (f : Nat) (ch : Chosen) (rmOk : Bool) (members : List Nat) (pre : PinMap) :
+    (peerRemove pc f ch rmOk members pre).err = !rmOk ∧
+    (rmOk = true → f ∉ (peerRemove pc f ch rmOk members pre).members) ∧
+    (rmOk = false → (peerRemove pc f ch rmOk members pre).members = members) := by
+  refine ⟨rfl, ?_, ?_⟩
+  · intro h; unfold peerRemove; simp [h]
+  · intro h; unfold peerRemove; simp [h]
+
+/-! ### expiry: the sweep of `StateSync` reaching every member -/
+
+/-- the round composition for the expiry sweep (pinsets of plain data pins; sharded content is removed with its
+    root by C04's unpin) -/
+theorem sync_round_cid (w : World) (sched : List Actor) (pre : PinMap)
+    (hA : AgreedRound w none sched) (hI : allData pre) (c : Nat) :
+    (∃ d ∈ sched, isClosest w d.pc.self none c = true ∧
+      roundFor c (roundSync sched pre).2 = (forCid c (syncAct d pre).log).map (fun e => (d.pc.self, e)) ∧
+      (roundSync sched pre).1.get c = (syncAct d pre).st.get c ∧
+      roundFor c (snapLogsSync sched pre) = roundFor c (roundSync sched pre).2) ∨
+    ((∀ a ∈ sched, isClosest w a.pc.self none c = false) ∧
+      roundFor c (roundSync sched pre).2 = [] ∧ (roundSync sched pre).1.get c = pre.get c ∧
+      roundFor c (snapLogsSync sched pre) = []) := by
+  rw [roundSync_eq, snapLogsSync_eq]
+  rcases decider_split hA c with h | ⟨s1, d, s2, e, hd, h1, h2⟩
+  · right
+    have hid : ∀ a ∈ sched, ∀ x : Pin, x.cid = c → syncSweeper.cond a x = false :=
+      fun a ha => sync_idle (hA.view a ha) (h a ha)
+    obtain ⟨j1, j2⟩ := roundWith_idle syncSweeper c sched pre hI hid
+    exact ⟨h, j1, j2, snap_idle syncSweeper c sched pre hI hid⟩
+  · left
+    subst e
+    have hid1 : ∀ a ∈ s1, ∀ x : Pin, x.cid = c → syncSweeper.cond a x = false :=
+      fun a ha => sync_idle (hA.view a (by simp [ha])) (h1 a ha)
+    have hid2 : ∀ a ∈ s2, ∀ x : Pin, x.cid = c → syncSweeper.cond a x = false :=
+      fun a ha => sync_idle (hA.view a (by simp [ha])) (h2 a ha)
+    obtain ⟨j1, j2⟩ := roundWith_decider syncSweeper c s1 s2 d pre hI hid1 hid2
+    refine ⟨d, by simp, hd, j1, j2, ?_⟩
+    rw [snap_decider syncSweeper c s1 s2 d pre hI hid1 hid2, j1]
+
+/-- one member's expiry sweep, cid by cid -/
+theorem syncAct_spec (a : Actor) (pre : PinMap) (hI : allData pre) (c : Nat) :
+    (syncAct a pre).st.get c = (forCid c (syncAct a pre).log).foldl effect (pre.get c) ∧
+    forCid c (syncAct a pre).log =
+      match pre.get c with
+      | some x => if syncCondFull a x then (if a.pc.follower then [] else [.logUnpin c]) else []
+      | none => [] := by
+  rw [syncSweeper.eq]
+  have hl := syncSweeper.isLocal a
+  refine ⟨by rw [(sweepAll_spec hl _ pre hI).2.1, get_commitAll hI.1], ?_⟩
+  rw [sweepAll_forCid hl _ pre hI c]
+  cases hg : pre.get c with
+  | none => rfl
+  | some x =>
+    simp only
+    have hxc := (get_some_mem hg).2
+    by_cases hc : syncSweeper.cond a x = true
+    · have hc' : syncCondFull a x = true := hc
+      rw [if_pos hc, if_pos hc']
+      show (unpinOut a.pc pre x).log = _
+      unfold unpinOut
+      rw [unpinOp_data _ _ _ hI.2, hxc, hg]
+      by_cases hf : a.pc.follower = true
+      · have : a.pc.cfg.follower = true := hf
+        rw [if_pos this, if_pos hf]; rfl
+      · have : ¬ a.pc.cfg.follower = true := hf
+        rw [if_neg this, if_neg hf]
+    · have hc' : ¬ syncCondFull a x = true := hc
+      rw [if_neg hc, if_neg hc']
+
+/-- **An expired pin is unpinned by exactly one peer and an unexpired pin by none** — in every order of the
+    members and under both commit disciplines. The one is the member closest to the cid (if it is a follower,
+    nobody unpins: followers skip the sweep). -/
+theorem expiry_once (w : World) (sched : List Actor) (pre : PinMap)
+    (hA : AgreedRound w none sched) (hI : allData pre) (x : Pin) (hx : pre.get x.cid = some x) :
+    (expired x = false →
+      roundFor x.cid (roundSync sched pre).2 = [] ∧ (roundSync sched pre).1.get x.cid = some x ∧
+      roundFor x.cid (snapLogsSync sched pre) = []) ∧
+    (expired x = true → ∀ d ∈ sched, isClosest w d.pc.self none x.cid = true →
+      (d.pc.follower = false →
+        roundFor x.cid (roundSync sched pre).2 = [(d.pc.self, .logUnpin x.cid)] ∧
+        (roundSync sched pre).1.get x.cid = none ∧
+        roundFor x.cid (snapLogsSync sched pre) = [(d.pc.self, .logUnpin x.cid)]) ∧
+      (d.pc.follower = true →
+        roundFor x.cid (roundSync sched pre).2 = [] ∧ (roundSync sched pre).1.get x.cid = some x)) := by
+  constructor
+  · intro hne
+    have hlog : ∀ a : Actor, forCid x.cid (syncAct a pre).log = [] := by
+      intro a
+      rw [(syncAct_spec a pre hI x.cid).2, hx]
+      have : syncCondFull a x = false := by unfold syncCondFull syncCond; rw [hne]; simp
+      simp [this]
+    rcases sync_round_cid w sched pre hA hI x.cid with ⟨d, _, _, r1, r2, r3⟩ | ⟨_, r1, r2, r3⟩
+    · refine ⟨by rw [r1, hlog d]; rfl, ?_, by rw [r3, r1, hlog d]; rfl⟩
+      rw [r2, (syncAct_spec d pre hI x.cid).1, hlog d, hx]; rfl
+    · exact ⟨r1, by rw [r2, hx], r3⟩
+  · intro he d hd hc
+    have hdd : ∀ d' ∈ sched, isClosest w d'.pc.self none x.cid = true → d' = d := by
+      intro d' hd' hc'
+      exact List.inj_on_of_nodup_map hA.once hd' hd (agreed_unique hA x.cid d' hd' d hd hc' hc)
+    rcases sync_round_cid w sched pre hA hI x.cid with ⟨d', hd', hc', r1, r2, r3⟩ | ⟨hn, _⟩
+    · have := hdd d' hd' hc'; subst this
+      have hcond : syncCond d'.w d'.pc x = true := by
+        unfold syncCond; rw [hA.view d' hd, he, hc]; rfl
+      constructor
+      · intro hf
+        have hlog : forCid x.cid (syncAct d' pre).log = [.logUnpin x.cid] := by
+          rw [(syncAct_spec d' pre hI x.cid).2, hx]
+          simp [syncCondFull, hf, hcond]
+        refine ⟨by rw [r1, hlog]; rfl, ?_, by rw [r3, r1, hlog]; rfl⟩
+        rw [r2, (syncAct_spec d' pre hI x.cid).1, hlog]; rfl
+      · intro hf
+        have hlog : forCid x.cid (syncAct d' pre).log = [] := by
+          rw [(syncAct_spec d' pre hI x.cid).2, hx]
+          simp [syncCondFull, hf]
+        refine ⟨by rw [r1, hlog]; rfl, ?_⟩
+        rw [r2, (syncAct_spec d' pre hI x.cid).1, hlog, hx]; rfl
+    · rw [hn d hd] at hc; cases hc
+
+/-- the expiry sweep never removes an unexpired pin and never adds one; the whole round's pinset is the
+    commit of the logged unpins -/
+theorem sync_state_is_commit (sched : List Actor) (pre : PinMap) (hI : allData pre) :
+    allData (roundSync sched pre).1 ∧ (roundSync sched pre).1 = commitAll pre (allEntries (roundSync sched pre).2) :=
+  roundWith_commit syncSweeper sched pre hI
+
+/-! ### the clock: `ExpiredAt` for every value of now -/
+
+/-- the abstract instants of the pin model are exactly what the clock says, for every clock value -/
+theorem expired_iff_clock (now : Int) (s : Stamp) (p : Pin) (h : p.opts.expire = s.abs now) :
+    expired p = expiredAt now s := by
+  unfold expired; rw [h]
+  cases s with
+  | zero => rfl
+  | «at» t =>
+    unfold Stamp.abs expiredAt
+    by_cases h0 : t = 0
+    · subst h0; rfl
+    · have : (t == 0) = false := by simpa using h0
+      by_cases hlt : t < now
+      · simp [this, hlt, h0]
+      · simp [this, hlt]
+
+/-- boundary: a pin whose expiry equals the clock has not expired (`Before` is strict); one nanosecond earlier it has;
+    the zero time and the unix epoch never expire -/
+theorem expiry_boundary (now : Int) :
+    expiredAt now (.at now) = false ∧ (now ≠ 1 → expiredAt now (.at (now - 1)) = true) ∧
+    expiredAt now .zero = false ∧ expiredAt now (.at 0) = false := by
+  refine ⟨by simp [expiredAt], ?_, rfl, by simp [expiredAt]⟩
+  intro h
+  have : now - 1 ≠ 0 := by omega
+  simp [expiredAt, this]
+  omega
+
+/-! ### per-member facts that hold whatever the other members do or see -/
+
+/-- A member only logs a pin for a CID it is closest to (in its own view). -/
+theorem onAlert_log_closest (w : World) (pc : PeerCfg) (f : Nat) (ch : Chosen) (pre : PinMap) (hw : pre.wf = true) (q : Pin)
+    (h : C04.LogEntry.logPin q ∈ (onAlert w pc f ch pre).log) : isClosest w pc.self (some f) q.cid = true := by
+  have hmem : C04.LogEntry.logPin q ∈ forCid q.cid (alertAct f ⟨w, pc, ch⟩ pre).log := mem_forCid.2 ⟨h, rfl⟩
+  rw [(onAlert_spec ⟨w, pc, ch⟩ f pre hw q.cid).2] at hmem
+  cases hg : pre.get q.cid with
+  | none => rw [hg] at hmem; cases hmem
+  | some x =>
+    rw [hg] at hmem
+    simp only at hmem
+    split_ifs at hmem with hc
+    · unfold alertCondFull alertCond at hc
+      simp only [Bool.and_eq_true] at hc
+      rw [← (get_some_mem hg).2]; exact hc.2.2
+    · cases hmem
+
+/-- Two different trusted members never both log a pin for the same CID for one failed peer, whatever pinsets
+    they read (any discipline, any lag), as long as they share the view of the peerset (distinct hashes). -/
+theorem alert_at_most_one_repinner (w : World) (f : Nat) (a b : PeerCfg) (cha chb : Chosen) (sa sb : PinMap)
+    (hwa : sa.wf = true) (hwb : sb.wf = true)
+    (qa qb : Pin) (hcid : qa.cid = qb.cid)
+    (ha : a.self ∈ w.members.map (·.1)) (hb : b.self ∈ w.members.map (·.1))
+    (hfa : a.self ≠ f) (hfb : b.self ≠ f) (hta : a.self ∉ w.untrusted) (htb : b.self ∉ w.untrusted)
+    (hdist : w.peerHash a.self = w.peerHash b.self → a.self = b.self)
+    (hla : C04.LogEntry.logPin qa ∈ (onAlert w a f cha sa).log)
+    (hlb : C04.LogEntry.logPin qb ∈ (onAlert w b f chb sb).log) : a.self = b.self := by
+  have h1 := onAlert_log_closest w a f cha sa hwa qa hla
+  have h2 := onAlert_log_closest w b f chb sb hwb qb hlb
+  rw [hcid] at h1
+  exact closest_at_most_one w (some f) qb.cid a.self b.self ha hb
+    (by simpa using hfa) (by simpa using hfb) hta htb hdist h1 h2
+
+/-- the expiry sweep only ever unpins expired pins -/
+theorem stateSync_only_expired (w : World) (pc : PeerCfg) (pre : PinMap) (c : Nat) (hI : allData pre)
+    (h : C04.LogEntry.logUnpin c ∈ (stateSync w pc pre).log) :
+    ∃ p ∈ pre, p.cid = c ∧ expired p = true := by
+  have hmem : C04.LogEntry.logUnpin c ∈ forCid c (syncAct ⟨w, pc, fun _ => []⟩ pre).log := mem_forCid.2 ⟨h, rfl⟩
+  rw [(syncAct_spec ⟨w, pc, fun _ => []⟩ pre hI c).2] at hmem
+  cases hg : pre.get c with
+  | none => rw [hg] at hmem; cases hmem
+  | some x =>
+    rw [hg] at hmem
+    simp only at hmem
+    split_ifs at hmem with hc
+    · cases hmem
+    · unfold syncCondFull syncCond at hc
+      simp only [Bool.and_eq_true] at hc
+      exact ⟨x, (get_some_mem hg).1, (get_some_mem hg).2, hc.2.1⟩
+    · cases hmem
+
+/-- a re-pin keeps every option of the pin (any type of pin, any outcome): only allocations may change -/
+theorem repin_preserves_options (pc : PeerCfg) (f : Nat) (ch : Chosen) (st : PinMap) (p : Pin)
+    (hw : st.wf = true) (hget : st.get p.cid = some p) (hst : p.stored = p)
+    (h1 : p.opts.rmin ≠ 0) (h2 : p.opts.rmax ≠ 0) :
+    ∃ al, (repinOut pc f ch st p).post.get p.cid = some { p with allocs := al } := by
+  unfold repinOut C04.pinOp
+  by_cases hf : pc.cfg.follower = true
+  · simp only [hf, if_true]
+    exact ⟨p.allocs, hget⟩
+  · simp only [hf, Bool.false_eq_true, if_false, List.isEmpty_cons]
+    unfold C04.pinBody
+    have hs : ∀ cfg' : C04.Cfg, C04.setupFactors cfg' ({ p with allocs := [] } : Pin)
+        = { p with allocs := [] } := fun cfg' => setupFactors_noop cfg' _ h1 h2 rfl
+    simp only [hs]
+    have hcid : ({ p with allocs := [] } : Pin).cid = p.cid := rfl
+    have logged : ∀ al, ((C04.logPin st ({ p with allocs := al } : Pin)).post.get p.cid)
+        = some { p with allocs := al } := by
+      intro al
+      show (PinMap.put ({ p with allocs := al } : Pin).stored st).get p.cid = _
+      rw [stored_with_allocs p al hst, get_put hw]
+      simp
+    split_ifs
+    · exact ⟨p.allocs, hget⟩
+    · exact ⟨p.allocs, hget⟩
+    · exact ⟨p.allocs, hget⟩
+    · exact ⟨[], logged []⟩
+    · have hk : C04.keepOrNew (st.get p.cid) ({ p with allocs := [] } : Pin) [f] = { p with allocs := [] } := by
+        unfold C04.keepOrNew; rw [hget]; simp
+      simp only [hcid, hk]
+      split
+      · exact ⟨ch p.cid, logged _⟩
+      · exact ⟨p.allocs, hget⟩
+    · rename_i hne
+      have hk : C04.keepOrNew (st.get p.cid) ({ p with allocs := [] } : Pin) [f] = { p with allocs := [] } := by
+        unfold C04.keepOrNew; rw [hget]; simp
+      simp only [hk] at hne
+      exact absurd rfl hne
+
+/-- a re-pin touches only that CID's entry -/
+theorem repin_other_untouched (pc : PeerCfg) (f : Nat) (ch : Chosen) (st : PinMap) (p : Pin)
+    (hw : st.wf = true) (c : Nat) (hc : c ≠ p.cid) : (repinOut pc f ch st p).post.get c = st.get c := by
+  unfold repinOut
+  have hsh := C04.shape_pinOp pc.cfg st { p with allocs := [] } [f] (ch p.cid)
+  exact C04.shape_frame hsh hw c (by simpa using hc)
+
+/-! Non-vacuity: three members with distinct hashes; exactly one passes `isClosest` for the CID. -/
+private def exW : World := { members := [(0, 12), (1, 7), (2, 33)], cidHash := [(5, 9)], untrusted := [] }
+example : isClosest exW 0 (some 1) 5 = true ∧ isClosest exW 2 (some 1) 5 = false ∧
+    isClosest exW 1 none 5 = false ∧ (others exW 0 (some 1)) = [2] := by decide
+
+
+/-! Non-vacuity of the round theorems: a three-member agreed round in which member 0 is the decider for cid 5,
+    the pin (held by the failed member 1 only, min 1) is re-pinnable and an allocation exists. -/
+private def exBase2 : C04.Cfg :=
+  { follower := false, defMin := 1, defMax := 1, desc := false,
+    peers := [(0, .valid 1), (2, .valid 2)], paths := [], blocks := [] }
+private def exPin : Pin :=
+  { cid := 5, type := .dataT, depth := -1, allocs := [1], ref := none,
+    opts := { rmin := 1, rmax := 1, name := 0, mode := .recursive, shard := 0, expire := .zero,
+              metadata := [], update := none, origins := [], ualloc := [] } }
+private def exA0 : Actor := { w := exW, pc := { self := 0, follower := false, disableRepin := false, base := exBase2 }, ch := fun _ => [0] }
+private def exA2 : Actor := { w := exW, pc := { self := 2, follower := false, disableRepin := false, base := exBase2 }, ch := fun _ => [2] }
+example : roundFor 5 (roundSeq 1 [exA2, exA0] [exPin]).2 = [(0, .logPin { exPin with allocs := [0] })] ∧
+    (roundSeq 1 [exA2, exA0] [exPin]).1 = [{ exPin with allocs := [0] }] ∧
+    (roundSeq 1 [exA0, exA2] [exPin]).1 = [{ exPin with allocs := [0] }] ∧
+    C03.allocate (repinInput exA0.pc 1 exPin) = .ok [0] ∧ canAct exA0.pc = true ∧
+    (C03.curIds (repinInput exA0.pc 1 exPin)).length = 0 := by decide
+example : (peerRemove exA0.pc 1 exA0.ch true [0, 1, 2] [exPin]).trace =
+    [.op (.logPin { exPin with allocs := [0] }), .rmPeer 1 true] := by decide
+private def exOld : Pin := { exPin with opts := { exPin.opts with expire := .past } }
+example : roundFor 5 (roundSync [exA2, exA0] [exOld]).2 = [(0, .logUnpin 5)] ∧ (roundSync [exA2, exA0] [exOld]).1 = [] := by decide
+
+/-! ### the handler loop is memoryless -/
+
+/-- The last alert of any history is handled exactly as `onAlert` prescribes for the pinset the
+    earlier alerts left behind, with the world of *its own* time. -/
+theorem handler_memoryless (pc : PeerCfg) (st : PinMap) (evs : List AlertEv) (w : World) (f : Nat) (ch : Chosen) :
+    handleAlerts pc st (evs ++ [.ping w f ch]) = (onAlert w pc f ch (handleAlerts pc st evs)).st := by
+  simp [handleAlerts, List.foldl_append, handleEv]
+
+/-- Earlier alerts that changed nothing (skipped, or handled while there was nothing to re-pin,
+    under whatever peerset) do not influence how a later alert is handled. -/
+theorem earlier_inert_alerts_irrelevant (pc : PeerCfg) (st : PinMap) (evs : List AlertEv) (w : World) (f : Nat)
+    (ch : Chosen) (hin : ∀ e ∈ evs, ∀ s, handleEv pc s e = s) :
+    handleAlerts pc st (evs ++ [.ping w f ch]) = (onAlert w pc f ch st).st := by
+  rw [handler_memoryless]
+  suffices h : handleAlerts pc st evs = st by rw [h]
+  induction evs generalizing st with
+  | nil => rfl
+  | cons e es ih =>
+    simp only [handleAlerts, List.foldl_cons]
+    rw [hin e (by simp) st]
+    exact ih st (fun e' he' => hin e' (by simp [he']))
+
+theorem skipped_inert (pc : PeerCfg) (s : PinMap) : handleEv pc s .skipped = s := rfl
+
+private def exBase : C04.Cfg :=
+  { follower := false, defMin := 1, defMax := 1, desc := false, peers := [], paths := [], blocks := [] }
+private def exPc : PeerCfg := { self := 0, follower := false, disableRepin := false, base := exBase }
+example : handleAlerts exPc [] [.skipped, .ping exW 1 (fun _ => [])] = [] := by decide
+
+/-! ### The anchored functions still read as the model was transcribed (regenerated from /repo on every run) -/
+
+theorem gen_source_alertsHandler : Gen.alertsHandler = Expected.alertsHandler := rfl
+theorem gen_source_repinFromPeer : Gen.repinFromPeer = Expected.repinFromPeer := rfl
+theorem gen_source_vacatePeer : Gen.vacatePeer = Expected.vacatePeer := rfl
+theorem gen_source_peerRemove : Gen.peerRemove = Expected.peerRemove := rfl
+theorem gen_source_stateSync : Gen.stateSync = Expected.stateSync := rfl
+theorem gen_source_distances : Gen.distances = Expected.distances := rfl
+theorem gen_source_getTrustedPeers : Gen.getTrustedPeers = Expected.getTrustedPeers := rfl
+theorem gen_source_isClosest : Gen.isClosest = Expected.isClosest := rfl
+theorem gen_source_convertPeerID : Gen.convertPeerID = Expected.convertPeerID := rfl
+theorem gen_source_convertKey : Gen.convertKey = Expected.convertKey := rfl
+
+
 end CV.C10
